@@ -1,10 +1,11 @@
 /-
-  C03 — property theorems (and non-vacuity examples) ONLY.  Helper lemmas: `Lemmas.lean`, `ParseLemmas.lean`, `FuelLemmas.lean`, `TreeLemmas.lean`, `NumLemmas.lean`, `SemLemmas.lean`, `SemMain.lean`.
+  C03 — property theorems (and non-vacuity examples) ONLY.  Helper lemmas: `Lemmas.lean`, `ParseLemmas.lean`, `FuelLemmas.lean`, `TreeLemmas.lean`, `NumLemmas.lean`, `SemLemmas.lean`, `SemMain.lean`, `ShellLemmas.lean`.
 -/
 import YashModel.Arith.FuelLemmas
 import YashModel.Arith.TreeLemmas
 import YashModel.Arith.NumLemmas
 import YashModel.Arith.SemMain
+import YashModel.Arith.ShellLemmas
 namespace YashModel.Arith
 open YashModel.Generated.ArithTables
 
@@ -352,6 +353,38 @@ example :
     Spec.inScope e = false ∧ evalValue (rpn e) [] = .ok (10, [(['x'], ['5'])]) ∧
     Spec.evalExact e [] = some (5, [(['x'], ['5'])]) := by
   refine ⟨by decide, by decide +kernel, by decide +kernel⟩
+
+/-! ## the glue to the shell's variable store (`Shell.lean`; yash-semantics `VarEnv`) -/
+
+/-- the evaluator written over the `yash_arith::Env` interface (the one the shell-level leg of the
+    correspondence runs with the shell's store) IS the evaluator of `Model.lean` when the environment is the
+    `HashMap`: every theorem above about `eval` is a theorem about it. -/
+theorem evalG_hashMap (f : Nat) (ast : List Ast) (env : Env) : evalG hashMapI f ast env = eval f ast env :=
+  evalG_hashMap_aux f ast env
+
+/-- "assignment operators update variables", for the shell's store: after `assign_variable` the variable is
+    visible with the assigned text, in whatever context it lives. -/
+theorem shell_assign_visible (cs cs' : List Ctx) (n : Name) (v : List Char)
+    (h : assignVisibleOrGlobal cs n v = some cs') : visible cs' n = some ⟨.scalar v, false⟩ :=
+  visible_after_assign cs cs' n v h
+
+/-- … and it is the variable the callers see: inside a function whose own context `c` has no variable `n`,
+    the assignment leaves `c` alone and after the function returned (context popped) `n` has the new value;
+    with a writable local `n` only the local changes and the callers' contexts are untouched. -/
+theorem shell_assign_scope (c r : Ctx) (rs : List Ctx) (n : Name) (v : List Char) (cs' : List Ctx)
+    (h : assignVisibleOrGlobal (c :: r :: rs) n v = some cs') :
+    (c.find n = none → ∃ rest', cs' = c :: rest' ∧ visible rest' n = some ⟨.scalar v, false⟩) ∧
+    (∀ w, c.find n = some w → cs' = c.put n ⟨.scalar v, false⟩ :: r :: rs ∧ w.readOnly = false) :=
+  assign_scope c r rs n v cs' h
+
+/-- a read-only target makes the assignment (hence the expansion) fail -/
+theorem shell_assign_readonly (c : Ctx) (rest : List Ctx) (n : Name) (v : List Char) (w : SVar)
+    (hw : c.find n = some w) (hro : w.readOnly = true) : assignVisibleOrGlobal (c :: rest) n v = none :=
+  assign_readonly c rest n v w hw hro
+
+/-- `n += 1` in a function without a local `n`, global `n=1`: the function's context stays empty, the global is 2 -/
+example : assignVisibleOrGlobal [[], [(['n'], ⟨.scalar ['1'], false⟩)]] ['n'] ['2']
+    = some [[], [(['n'], ⟨.scalar ['2'], false⟩)]] := by decide
 
 /-- the two witnesses that failed before the fix: `x=010` is 8, `x=0x10` is 16 -/
 example : expandVariable ['x'] [(['x'], "010".toList)] = .ok 8 ∧
